@@ -20,6 +20,7 @@ import (
 	"mltwist/internal/consoleui/internal/memview"
 	"mltwist/internal/consoleui/internal/view"
 	"mltwist/internal/deps"
+	"mltwist/internal/parser"
 	"mltwist/internal/riscv"
 	"mltwist/internal/state"
 	"mltwist/internal/state/memory"
@@ -122,6 +123,35 @@ func New(segs []prog.Seg, entry uint64) (*Session, error) {
 		return nil, err
 	}
 	return &Session{UI: ui, Code: code, Segs: segs}, nil
+}
+
+// NewFromIns is New for a code given as (synthetic) instructions instead of machine words:
+// the code model is built from them directly, the program image holds their bytes.
+func NewFromIns(ins []parser.Instruction, entry uint64) (*Session, error) {
+	cp := make([]parser.Instruction, len(ins))
+	copy(cp, ins)
+	code, err := deps.NewCode(model.Addr(entry), cp)
+	if err != nil {
+		return nil, err
+	}
+	var blocks []memory.ByteBlock
+	for _, in := range ins {
+		blocks = append(blocks, byteBlock{in.Addr, append([]byte{}, in.Bytes...)})
+	}
+	bm, err := memory.NewBytes(blocks)
+	if err != nil {
+		return nil, err
+	}
+	emulF := func(p *deps.Code, ip model.Addr) (consoleui.Mode, error) {
+		m := memory.NewOverlay(bm, memory.NewSparse())
+		st := &state.State{Regs: state.NewRegMap(), Mems: memory.MemMap{riscv.MemoryKey: m}}
+		return emulate.New(p, ip, st)
+	}
+	ui, err := consoleui.New(disassemble.New(code, emulF))
+	if err != nil {
+		return nil, err
+	}
+	return &Session{UI: ui, Code: code}, nil
 }
 
 // Tail is appended to every injected input so that prompts never hit EOF.
